@@ -20,8 +20,13 @@ Ghost counters for stating the property: `nBegun i` = number of Begin(i) calls t
 their first micro-step, `nCounted i` = number of `+1` on slot i, `nDoneDec i` = number of `-1`.
 "Index i is begun and unfinished" := nDoneDec i < nBegun i.
 
-Configuration (fact re-extracted from the source):
+Configuration (facts re-extracted from the source):
   countsFirst   Begin increments the pending count before it publishes lastIndex
+  tracksZero    addIndex counts index 0 like any other index (as-is: `if index == 0 { return }`,
+                and such a call does not even run tryAdvance; the model then has no Begin(0)/Done(0):
+                the driver maps Begin(0) to a bare tryAdvance and Done(0) to nothing)
+  holdsAtDone   tryAdvance additionally loads the slot AT doneUntil and returns while it is
+                positive (an index equal to the mark that is begun again holds the mark)
 -/
 import NoKVModel.Conc.Sys
 
@@ -30,9 +35,11 @@ open NoKV.Conc
 
 structure WMCfg where
   countsFirst : Bool
+  tracksZero : Bool := false     -- addIndex counts index 0 (no early return, window base 0)
+  holdsAtDone : Bool := false    -- tryAdvance returns while the slot AT doneUntil is pending
   deriving DecidableEq, Repr
 
-def WMCfg.good : WMCfg := ⟨true⟩
+def WMCfg.good : WMCfg := ⟨true, true, true⟩
 def WMCfg.Good (c : WMCfg) : Prop := c.countsFirst = true
 instance WMCfg.decGood (c : WMCfg) : Decidable c.Good := by unfold WMCfg.Good; exact inferInstance
 
@@ -48,6 +55,7 @@ inductive Kind where
   | begin (i : Nat)
   | done (i : Nat)
   | wait (i : Nat)
+  | adv                        -- a bare tryAdvance() (what Begin(0) amounts to when index 0 is ignored)
   deriving DecidableEq, Repr
 
 def progOf (c : WMCfg) : Kind → List Instr
@@ -56,12 +64,14 @@ def progOf (c : WMCfg) : Kind → List Instr
     else [.setLast i, .add i true, .endBegin, .advance]
   | .done i => [.add i false, .advance]
   | .wait i => [.wait i]
+  | .adv => [.advance]
 
 /-- position inside the current instruction -/
 inductive Loc where
   | start
   | haveD (d : Nat)            -- tryAdvance: doneUntil loaded
-  | haveDL (d : Nat)           -- tryAdvance: lastIndex loaded, d < L
+  | haveDL (d : Nat)           -- tryAdvance: lastIndex loaded, d < L; about to load slot(d)  (holdsAtDone only)
+  | haveDH (d : Nat)           -- tryAdvance: d < L (and slot(d) was <= 0); about to load slot(d+1)
   | cas (d : Nat)              -- tryAdvance: slot(d+1) loaded, it was <= 0
   | notify (u : Nat)           -- tryAdvance: CAS succeeded, waiters not yet notified
   | w2                         -- WaitForMark: fast path failed, before the mutex section
@@ -90,6 +100,7 @@ inductive Act where
   | begin (tid i : Nat)
   | done (tid i : Nat)
   | wait (tid i : Nat)
+  | adv (tid : Nat)
   | run (tid : Nat)
 
 def setThr (s : St) (tid : Nat) (t : Thr) : St := { s with thr := upd s.thr tid (some t) }
@@ -98,6 +109,7 @@ def Kind.idx : Kind → Nat
   | .begin i => i
   | .done i => i
   | .wait i => i
+  | .adv => 0
 
 def Kind.isBegin : Kind → Bool
   | .begin _ => true
@@ -126,7 +138,7 @@ def stepThr (c : WMCfg) (s : St) (tid : Nat) (t : Thr) : Option St :=
         lastIndex := if s.lastIndex < i then i else s.lastIndex, nBegun := bumpBegun s t }
     | .add i up =>
       some { (setThr s tid (nextInstr t)) with
-        cnt := if i = 0 then s.cnt else upd s.cnt i (s.cnt i + (if up then 1 else -1)),
+        cnt := if i = 0 ∧ c.tracksZero = false then s.cnt else upd s.cnt i (s.cnt i + (if up then 1 else -1)),
         nBegun := bumpBegun s t,
         nCounted := if up then upd s.nCounted i (s.nCounted i + 1) else s.nCounted,
         nDoneDec := if up then s.nDoneDec else upd s.nDoneDec i (s.nDoneDec i + 1) }
@@ -136,8 +148,11 @@ def stepThr (c : WMCfg) (s : St) (tid : Nat) (t : Thr) : Option St :=
       | .start => some (setThr s tid { t with loc := .haveD s.doneUntil })
       | .haveD d =>
         if d ≥ s.lastIndex then some (setThr s tid (nextInstr t))
-        else some (setThr s tid { t with loc := .haveDL d })
+        else some (setThr s tid { t with loc := if c.holdsAtDone then .haveDL d else .haveDH d })
       | .haveDL d =>
+        if s.cnt d > 0 then some (setThr s tid (nextInstr t))
+        else some (setThr s tid { t with loc := .haveDH d })
+      | .haveDH d =>
         if s.cnt (d + 1) > 0 then some (setThr s tid (nextInstr t))
         else some (setThr s tid { t with loc := .cas d })
       | .cas d =>
@@ -163,13 +178,15 @@ def stepThr (c : WMCfg) (s : St) (tid : Nat) (t : Thr) : Option St :=
 and each index exceeds lastIndex (hence every index begun before). -/
 def step (c : WMCfg) (contract : Bool) (s : St) : Act → Option St
   | .begin tid i =>
-    if s.thr tid = none ∧ 0 < i ∧ (contract = true → s.sectionBusy = false ∧ s.lastIndex < i) then
+    if s.thr tid = none ∧ (0 < i ∨ c.tracksZero = true) ∧ (contract = true → s.sectionBusy = false ∧ s.lastIndex < i) then
       some { (setThr s tid { kind := .begin i }) with sectionBusy := true }
     else none
   | .done tid i =>
-    if s.thr tid = none ∧ 0 < i then some (setThr s tid { kind := .done i }) else none
+    if s.thr tid = none ∧ (0 < i ∨ c.tracksZero = true) then some (setThr s tid { kind := .done i }) else none
   | .wait tid i =>
     if s.thr tid = none then some (setThr s tid { kind := .wait i }) else none
+  | .adv tid =>
+    if s.thr tid = none then some (setThr s tid { kind := .adv }) else none
   | .run tid =>
     match s.thr tid with
     | some t => stepThr c s tid t
